@@ -187,11 +187,22 @@ def sensitivity(a, chk):
     # leave /verif/build pointing at the real tree again
     subprocess.run([os.path.join(V, "bin", "build")], stdout=subprocess.PIPE, stderr=subprocess.STDOUT)
     subprocess.run([os.path.join(V, "bin", "build"), "race"], stdout=subprocess.PIPE, stderr=subprocess.STDOUT)
-    report["caught"], report["missed"] = caught, missed
-    os.makedirs(os.path.join(V, "selftest"), exist_ok=True)
-    with open(os.path.join(V, "selftest", "sensitivity.json"), "w") as f:
-        json.dump(report, f, indent=1)
     print("sensitivity: %d caught, %d missed" % (caught, missed))
+    os.makedirs(os.path.join(V, "selftest"), exist_ok=True)
+    path = os.path.join(V, "selftest", "sensitivity.json")
+    if os.path.exists(path):  # keep the record of seeded changes not re-run this time
+        try:
+            have = {(r["property"], r["mutant"]) for r in report["results"]}
+            for r in json.load(open(path)).get("results", []):
+                if (r["property"], r["mutant"]) not in have:
+                    report["results"].append(r)
+        except Exception:
+            pass
+    report["results"].sort(key=lambda r: (r["property"], r["mutant"]))
+    report["caught"] = sum(1 for r in report["results"] if r.get("caught"))
+    report["missed"] = sum(1 for r in report["results"] if r.get("caught") is False)
+    with open(path, "w") as f:
+        json.dump(report, f, indent=1)
     return 0
 
 
